@@ -87,6 +87,16 @@ def cases(tier):
         for flags in (["0000", "1111", "0010"] if len(data) < 4 else ["0000"]):
             out.append({"fmt": "cli", "kind": "cli-content", "name": ["prog.bas", "x.bas", "a_1.bas"][k % 3], "data": data, "flags": flags,
                         "storage": [32, 80][k % 2], "sizes": []})
+    # the same program with LF, CR LF and CR line ends: lines that end in text running to the end of the line (REM, ', an
+    # unquoted DATA item, an open string literal) - through the command line the three spellings give the same bytes (C08)
+    eol_progs = ['10 REM TAIL COMMENT\n20 PRINT "A"\n30 \' ANOTHER\n40 END\n', '10 DATA 1,TWO WORDS\n20 READ A,B$\n30 DATA LAST ITEM\n',
+                 '10 A$="OPEN LITERAL\n20 PRINT A$\n', '10 PRINT "X":REM R1\n20 GOTO 10\n', '10 CLS\n20 REM LAST LINE WITHOUT END',
+                 '10 IF A=1 THEN 20 ELSE 30 \' C\n20 DATA A B ,C\n30 READ X$,Y$\n']
+    for g, text in enumerate(eol_progs):
+        for tag, nl in (("lf", "\n"), ("crlf", "\r\n"), ("cr", "\r")):
+            for flags in ("0000", "0110"):
+                out.append({"fmt": "cli", "kind": "cli-eol", "name": "prog.bas", "data": text.replace("\n", nl).encode(), "flags": flags,
+                            "storage": 32, "sizes": [], "group": (g, flags), "eol": tag})
     # the configuration file: entries at the edge of what the validator documents, and entries beyond it
     prog = '10 DIM A$, AB$(3), A1$, ZZ$\n20 A$="X":AB$(1)=A$:A1$="Y":ZZ$="Z":B$="W"\n'
     for sizes, valid in CONFIG_PROBES:
@@ -126,6 +136,15 @@ def config_oracle(case, impl):
                     __import__("re").search(r"(?<![A-Za-z0-9_])" + __import__("re").escape(ident) + r"(?![A-Za-z0-9_$])", l)]
             if dims and size != 32 and not any(f"STRING[{size}]" in l for l in dims):
                 return f"{key} is configured with {size} bytes but is declared as {dims[0].strip()[:60]!r}"
+    return None
+
+
+def eol_oracle(case, impl):
+    """C08 through the command line: the CR LF and CR spellings of a file give the bytes its LF spelling gives"""
+    lf = case.get("aux", {}).get("lf")
+    if case["kind"] == "cli-eol" and lf is not None and impl != lf:
+        return (f"start(argv) on the {case['eol'].upper()} spelling of {case['data'][:40]!r}… gives other bytes than on its LF spelling "
+                f"({impl[:50]} / {lf[:50]})")
     return None
 
 
@@ -186,6 +205,10 @@ def run(tier):
         impl = [run_cli(d, c["name"], c["data"], c["flags"], c["storage"], c["sizes"]) for c in cs]
     finally:
         shutil.rmtree(d, ignore_errors=True)
+    lf_of = {c["group"]: impl[k] for k, c in enumerate(cs) if c["kind"] == "cli-eol" and c["eol"] == "lf"}
+    for c in cs:
+        if c["kind"] == "cli-eol":
+            c.setdefault("aux", {})["lf"] = lf_of.get(c["group"])
     picks = [k for k in range(len(cs)) if k % 3 == 1 or cs[k]["kind"].startswith("cli-config")]
     with mp.Pool(16) as pool:
         fresh = pool.map(_fresh, [{"name": cs[k]["name"], "data": cs[k]["data"].hex(), "flags": cs[k]["flags"],
